@@ -416,6 +416,9 @@ def _bounded_transform(self, cx):
         [lambda n: n.v if isinstance(n, Num) else n, lambda n: n],
         [lambda n: [n] if isinstance(n, Num) else n],
         [lambda n: Num(n.v) if isinstance(n, Num) else n, lambda n: Box(n) if isinstance(n, Num) else n],
+        # the first callback looks at what the SECOND one makes of the children: every rebuilt node must go through ALL callbacks before its parent is rebuilt
+        [lambda n: n.x if isinstance(n, Box) and isinstance(n.x, int) else n, lambda n: n.v if isinstance(n, Num) else n],
+        [lambda n: n.v if isinstance(n, Num) else n, lambda n: n.x if isinstance(n, Box) and isinstance(n.x, int) else n, lambda n: n],
         [lambda n: type(n)(*[getattr(n, f) for f in n._fields])],      # clones every node: equal to, but never identical with, the input
     ]
 
@@ -484,9 +487,26 @@ def _bounded_transform(self, cx):
             elif ci != 4 and shape(ta) != shape(tb):
                 # chain 4 returns an existing child: the reference (== the documented algorithm) writes metadata into it as well
                 bad.append({'tree': repr(tb)[:100], 'chain': ci, 'what': 'input tree differs after transform'})
-    return bad, tried, 'fixed family: 9 trees (nested lists, tuples, dicts, shared nodes, metadata-less nodes) x 8 callback chains, against a reference implementation of the documented algorithm'
+            elif ci != 4:
+                # the metadata a replacement inherits is a COPY: tagging the new nodes afterwards must not show in the input tree
+                before = reach_ids(ta)
+
+                def tag(n):
+                    if isinstance(n, PO):
+                        if id(n) not in before:
+                            n._metadata.probe = 'tagged'
+                        for f in n._fields:
+                            tag(getattr(n, f))
+                    elif isinstance(n, list):
+                        for x in n:
+                            tag(x)
+                tag(got)
+                if shape(ta) != shape(tb):
+                    bad.append({'tree': repr(tb)[:100], 'chain': ci, 'what': 'tagging the metadata of a NEW node of the result changed the input tree (metadata object shared, not copied)'})
+    return bad, tried, 'fixed family: 9 trees (nested lists, tuples, dicts, shared nodes, metadata-less nodes) x 11 callback chains, against a reference implementation of the documented algorithm'
 
 
 TransformInnerC.bounded = _bounded_transform
 CallbackChainC.bounded = _bounded_transform
+TransformOuterC.bounded = _bounded_transform
 TRANSFORM = [TransformInnerC(), CallbackChainC(), TransformOuterC()]
